@@ -585,6 +585,39 @@ def work(item, res):
                     for tree in ((op2, (op1, a, b), c), (op1, a, (op2, b, c))):
                         n += 1
                         run_case(tree, dest, None, vec2, res, kernel_every, n)
+                        # the destination register is an operand that
+                        # occurs on both sides of the outer operator
+                        if dest[0] == "reg":
+                            ls = [l for l in leaves_of(tree)
+                                  if l[0] != "const"]
+                            uniq = []
+                            for l in ls:
+                                if l not in uniq:
+                                    uniq.append(l)
+                            for i, l in enumerate(uniq):
+                                if l == ("reg", dest[1]) and ls.count(l) > 1:
+                                    n += 1
+                                    run_case(tree, dest, i, vec2, res,
+                                             kernel_every, n)
+    elif kind == "big":
+        # unsigned constants with bit 63 set stay unsigned (logical shifts)
+        big, leaf, dests = payload
+        vec2 = vector_fn(seed, True)
+        n = 0
+        for op in ("|", "+", "&", "^", "-"):
+            for sh in (1, 4, 63):
+                for dest in dests:
+                    for tree in ((">>", (op, leaf, ("const", big)),
+                                  ("const", sh)),
+                                 (">>", (op, ("const", big), leaf),
+                                  ("const", sh))):
+                        n += 1
+                        run_case(tree, dest, None, vec2, res, kernel_every, n)
+        for dest in dests:
+            run_case((">>", ("const", big), leaf), dest, None, vec2, res,
+                     kernel_every, 1)
+            run_case(("//", ("const", big), leaf), dest, None, vec2, res,
+                     kernel_every, 2)
     elif kind == "chain":
         ops, kinds, right, dest = payload
         leaves = [("reg", k) for k in kinds]
@@ -638,6 +671,10 @@ def run(ctx):
             continue
         for op1 in ops1:
             items.append(("d2", (a, b, c, [op1], d2), ctx.seed, ctx.quick, ke))
+    for big in (1 << 63, (1 << 64) - 256, (1 << 64) - 1, (1 << 63) + 5):
+        for leaf in (("reg", "r"), ("loc", "Q")):
+            items.append(("big", (big, leaf, [("reg", "r"), ("loc", "q")]),
+                          ctx.seed, ctx.quick, ke))
     # register chains (allocator exhaustion)
     for n in range(3, 7 if ctx.quick else 7):
         for right in (False, True):
